@@ -104,12 +104,20 @@ func main() {
 		stubs    multiFlag
 		merges   multiFlag
 	)
+	patchSpec := flag.String("patchstubs", "", "spec.json: generate source-patched copies for native stub injection")
+	patchOutDir := flag.String("patchout", "", "directory for patched copies")
 	flag.Var(&bounds, "bound", "NAME=value")
 	flag.Var(&stubs, "stub", "full.Func=HarnessFunc")
 	flag.Var(&merges, "merge", "function to merge")
 	flag.Parse()
 
 	os.Setenv("PATH", "/opt/veriftools/go1.26.8/bin:"+os.Getenv("PATH"))
+	if *patchSpec != "" {
+		if err := patchStubs(*patchSpec, *patchOutDir, *overlay); err != nil {
+			fatal("patchstubs: %v", err)
+		}
+		return
+	}
 	t0 := time.Now()
 	conf := Config{Unwind: *unwind, MaxSteps: *maxSteps, MaxDepth: 400, MaxPaths: *maxPaths, MaxAlloc: 1 << 22,
 		MaxIteTable: 4096, MaxConcretize: 300, Workers: *workers, SolverKind: *solver, TimeoutMs: *timeout,
